@@ -855,6 +855,24 @@ func genC14(c *Ctx) {
 		c.add(Case{Op: fmt.Sprintf("su.amino %d", b), Impl: strings.Replace(got, "PANIC", "P", 1), Kind: "amino", Nontrivial: true, Oracle: oracle,
 			Note: fmt.Sprintf("AminoName(%d)", b)})
 	}
+	// every ordered pair of consecutive calls (a result must not depend on the call before it)
+	{
+		single := make([]string, 256)
+		for b := 0; b < 256; b++ {
+			single[b] = safe(func() string { c3, name := sequtil.AminoName(byte(b)); return c3 + "/" + name })
+		}
+		bad := ""
+		for a := 0; a < 256 && bad == ""; a++ {
+			for b := 0; b < 256; b++ {
+				safe(func() string { sequtil.AminoName(byte(a)); return "" })
+				if got := safe(func() string { c3, name := sequtil.AminoName(byte(b)); return c3 + "/" + name }); got != single[b] {
+					bad = fmt.Sprintf("AminoName(%d) right after AminoName(%d) gives %q, alone it gives %q", b, a, got, single[b])
+					break
+				}
+			}
+		}
+		c.add(Case{Kind: "amino-call-pairs", Nontrivial: true, Oracle: bad, Note: "AminoName(b) after AminoName(a) for all 65536 ordered pairs (a, b)"})
+	}
 	var strs [][]byte
 	maxLen := 5
 	if c.thor {
@@ -915,6 +933,11 @@ func genC14(c *Ctx) {
 					}
 				}
 			}
+		}
+		if !dna && len(s) < 3 && got == "PANIC" && oracle == "" {
+			// no frame of a sequence shorter than a codon has anything to translate: the i-th result is Translate
+			// of an empty string whatever the bytes are
+			oracle = fmt.Sprintf("TranslateReadingFrames(%q) panics although no frame contains a codon", s)
 		}
 		c.add(Case{Op: "su.frames " + hx(s), Impl: strings.Replace(got, "PANIC", "P", 1), Kind: fmt.Sprintf("frames-len%d", min(len(s), 3)), Nontrivial: len(s) > 2,
 			Oracle: oracle, Note: fmt.Sprintf("TranslateReadingFrames(%q)", s)})
